@@ -1806,6 +1806,20 @@ impl Element {
         // make sure compatibility checks are performed with the element type used in the target version
         let elemtype_new = self.recalc_element_type(target_version);
 
+        // an element type that is identifiable in the target version requires a SHORT-NAME
+        if elemtype_new.is_named_in_version(target_version) && self.get_sub_element(ElementName::ShortName).is_none() {
+            // the element is allowed as it is in the versions where it has no SHORT-NAME
+            let version_mask = autosar_data_specification::expand_version_mask(u32::MAX)
+                .into_iter()
+                .filter(|version| !elemtype_new.is_named_in_version(*version))
+                .fold(0u32, |mask, version| mask | version as u32);
+            compat_errors.push(CompatibilityError::IncompatibleElement {
+                element: self.clone(),
+                version_mask,
+            });
+            overall_version_mask &= version_mask;
+        }
+
         // check the compatibility of all the attributes in this element
         {
             let element = self.0.read();
